@@ -718,6 +718,44 @@ pub fn eval_c20(sc: &Scenario, h: &History, _signed: &Signeds, out: &mut Outcome
             if emitted != want {
                 out.violate("C20.builder_certificates", "builder_balances_other_certificates_than_were_set", format!("op {}: the body carries {} certificate(s), the history's successful calls set {}", b.op, emitted.len(), want.len()));
             }
+            // explicit amounts: a registration / deregistration the history built with an explicit amount is
+            // in the body in its Conway form with exactly that amount (read by the harness reader)
+            let from = sc.ops.iter().enumerate().take(b.op).filter(|(i, o)| matches!(o, Op::RemoveCerts | Op::SetCertsLegacy | Op::SetCertsLegacyWith(_)) && h.results.get(*i).map_or(false, |r| r.is_ok())).map(|(i, _)| i + 1).last().unwrap_or(0);
+            for (i, o) in sc.ops.iter().enumerate().take(b.op).skip(from) {
+                if !h.results.get(i).map_or(false, |r| r.is_ok()) {
+                    continue;
+                }
+                let (tag, cred, coin_ix, amount, legacy_tag) = match o {
+                    Op::Cert(CertSpec::StakeRegCoin(c, d), _) => (7u64, c, 2usize, *d, Some(0u64)),
+                    Op::Cert(CertSpec::StakeDeregCoin(c, d), _) => (8, c, 2, *d, Some(1)),
+                    Op::Cert(CertSpec::DRepReg(c, d, _), _) => (16, c, 2, *d, None),
+                    Op::Cert(CertSpec::DRepDereg(c, d), _) => (17, c, 2, *d, None),
+                    Op::Cert(CertSpec::StakeRegDeleg(c, _, d), _) => (11, c, 3, *d, None),
+                    Op::Cert(CertSpec::VoteRegDeleg(c, _, d), _) => (12, c, 3, *d, None),
+                    Op::Cert(CertSpec::StakeVoteRegDeleg(c, _, _, d), _) => (13, c, 4, *d, None),
+                    _ => continue,
+                };
+                let want_cred = match cred {
+                    Cred::Key(k) => oracle::CredV::Key(key(*k).hash_bytes.to_vec()),
+                    Cred::Script(sid) if (*sid as usize) < sc.world.scripts.len() => oracle::CredV::Script(oracle::script_hash_of(&sc.world.scripts[*sid as usize]).to_vec()),
+                    _ => continue,
+                };
+                let same_cred = |n: &cbor::Node| n.idx(1).and_then(|c| oracle::cred_of(c).ok()).map_or(false, |c| match (&c, &want_cred) {
+                    (oracle::CredV::Key(a), oracle::CredV::Key(b2)) | (oracle::CredV::Script(a), oracle::CredV::Script(b2)) => a == b2,
+                    _ => false,
+                });
+                let certs = v.certs().unwrap_or_default();
+                let mine: Vec<&&cbor::Node> = certs.iter().filter(|n| n.idx(0).and_then(|t| t.as_u64()) == Some(tag) && same_cred(n)).collect();
+                out.count("c20.explicit_amounts_checked", 1);
+                if mine.iter().any(|n| n.idx(coin_ix).and_then(|c| c.as_u64()) == Some(amount)) {
+                    continue;
+                }
+                if !mine.is_empty() {
+                    out.violate("C20.explicit_amount", "explicit_amount_changed", format!("op {}: certificate of op {} (tag {}) was built with the explicit amount {} but the body carries another amount", b.op, i, tag, amount));
+                } else if legacy_tag.map_or(false, |lt| certs.iter().any(|n| n.idx(0).and_then(|t| t.as_u64()) == Some(lt) && same_cred(n))) {
+                    out.violate("C20.explicit_amount", "explicit_amount_form_lost", format!("op {}: certificate of op {} was built with the explicit amount {} but the body carries the form without an amount (charged by parameter)", b.op, i, amount));
+                }
+            }
         }
     }
     // cert/withdrawal/proposal-only sessions: force a body out of the final builder state
